@@ -787,6 +787,11 @@ impl<'p> Model<'p> {
         self.events.iter().rev().find_map(|e| if let Event::Error(k, l) = e { Some((*k, *l)) } else { None })
     }
 
+    /// The INPUT statement currently waiting for a reply.
+    pub fn pending_input_stmt(&self) -> Option<&'p Stmt> {
+        self.pending_input.map(|(s, _, _)| s)
+    }
+
     pub fn stack_depth(&self) -> usize {
         self.frames.len()
     }
